@@ -1,3 +1,489 @@
 package corpus
 
-func builtBoxes() []Seed { return nil }
+// Hand-built instances (byte-level builders written from the ISO/IEC
+// 14496-12/-15/-30, 23001-7, 23001-18, ETSI TS 102 366 and codec-binding
+// syntax tables, independent of mp4ff's encoders) of every registered box
+// type that no testdata file contains and of every version/flag shape of the
+// versioned boxes.
+
+import (
+	"encoding/binary"
+	"fmt"
+)
+
+func cat(parts ...[]byte) []byte {
+	var out []byte
+	for _, p := range parts {
+		out = append(out, p...)
+	}
+	return out
+}
+
+func u8(v ...byte) []byte { return v }
+func u16(v uint16) []byte { b := make([]byte, 2); binary.BigEndian.PutUint16(b, v); return b }
+func u24(v uint32) []byte { return []byte{byte(v >> 16), byte(v >> 8), byte(v)} }
+func u32(v uint32) []byte { b := make([]byte, 4); binary.BigEndian.PutUint32(b, v); return b }
+func u64(v uint64) []byte { b := make([]byte, 8); binary.BigEndian.PutUint64(b, v); return b }
+func str0(s string) []byte { return append([]byte(s), 0) }
+func zeros(n int) []byte  { return make([]byte, n) }
+func seq(n int, start byte) []byte {
+	b := make([]byte, n)
+	for i := range b {
+		b[i] = start + byte(i)
+	}
+	return b
+}
+
+// bx builds a box with a compact header.
+func bx(typ string, payload ...[]byte) []byte {
+	p := cat(payload...)
+	return cat(u32(uint32(8+len(p))), []byte(typ), p)
+}
+
+// fb builds a FullBox.
+func fb(typ string, ver byte, flags uint32, payload ...[]byte) []byte {
+	return bx(typ, cat(u8(ver), u24(flags)), cat(payload...))
+}
+
+var unity = cat(u32(0x00010000), u32(0), u32(0), u32(0), u32(0x00010000), u32(0), u32(0), u32(0), u32(0x40000000))
+
+func visualEntry(typ string, w, h uint16, name string, children ...[]byte) []byte {
+	cn := make([]byte, 32)
+	cn[0] = byte(len(name))
+	copy(cn[1:], name)
+	return bx(typ, zeros(6), u16(1), zeros(16), u16(w), u16(h), u32(0x00480000), u32(0x00480000), u32(0), u16(1), cn, u16(0x0018), u16(0xffff), cat(children...))
+}
+
+func audioEntry(typ string, ch, bits uint16, rate uint32, children ...[]byte) []byte {
+	return bx(typ, zeros(6), u16(1), zeros(8), u16(ch), u16(bits), u16(0), u16(0), u32(rate<<16), cat(children...))
+}
+
+var spsBase = []byte{0x67, 0x42, 0xc0, 0x1e, 0xd9, 0x00, 0xa0, 0x47, 0xfe, 0xc8}
+var spsHigh = []byte{0x67, 0x64, 0x00, 0x1e, 0xac, 0xd9, 0x40, 0xa0, 0x2f, 0xf9, 0x70, 0x11, 0x00, 0x00, 0x03, 0x00, 0x01, 0x00, 0x00, 0x03, 0x00, 0x32, 0x0f, 0x16, 0x2d, 0x96}
+var ppsAvc = []byte{0x68, 0xeb, 0xe3, 0xcb, 0x22, 0xc0}
+
+func avcC(profile byte, sps []byte, ext []byte) []byte {
+	return bx("avcC", u8(1, profile, sps[2], sps[3], 0xff, 0xe1), u16(uint16(len(sps))), sps, u8(1), u16(uint16(len(ppsAvc))), ppsAvc, ext)
+}
+
+func hvcC(arrays ...[]byte) []byte {
+	return bx("hvcC", u8(1, 0x01), u32(0x60000000), u8(0x90, 0, 0, 0, 0, 0), u8(93), u16(0xf000), u8(0xfc, 0xfd, 0xf8, 0xf8), u16(0), u8(0x0f), u8(byte(len(arrays))), cat(arrays...))
+}
+
+func hvcArray(complete bool, typ byte, nalus ...[]byte) []byte {
+	b := typ & 0x3f
+	if complete {
+		b |= 0x80
+	}
+	out := cat(u8(b), u16(uint16(len(nalus))))
+	for _, n := range nalus {
+		out = cat(out, u16(uint16(len(n))), n)
+	}
+	return out
+}
+
+func esds(sizeLen int, asc []byte) []byte {
+	sz := func(n int) []byte {
+		if sizeLen == 1 {
+			return u8(byte(n))
+		}
+		return u8(0x80, 0x80, 0x80, byte(n))
+	}
+	dsi := cat(u8(5), sz(len(asc)), asc)
+	dcd := cat(u8(0x40, 0x15), u24(0x000300), u32(128000), u32(96000), dsi)
+	sl := cat(u8(6), sz(1), u8(2))
+	es := cat(u16(1), u8(0), u8(4), sz(len(dcd)), dcd, sl)
+	return fb("esds", 0, 0, u8(3), sz(len(es)), es)
+}
+
+func dataBox(text string) []byte { return bx("data", u32(1), u32(0), []byte(text)) }
+
+var kid1 = seq(16, 0x10)
+var kid2 = seq(16, 0xa0)
+var sysID = []byte{0xed, 0xef, 0x8b, 0xa9, 0x79, 0xd6, 0x4a, 0xce, 0xa3, 0xc8, 0x27, 0xdc, 0xd5, 0x1d, 0x21, 0xed}
+
+func trun(ver byte, flags uint32, n int) []byte {
+	p := u32(uint32(n))
+	if flags&0x1 != 0 {
+		p = cat(p, u32(0x000001a8))
+	}
+	if flags&0x4 != 0 {
+		p = cat(p, u32(0x02000000))
+	}
+	for i := 0; i < n; i++ {
+		if flags&0x100 != 0 {
+			p = cat(p, u32(uint32(1000+i)))
+		}
+		if flags&0x200 != 0 {
+			p = cat(p, u32(uint32(0x12345+7*i)))
+		}
+		if flags&0x400 != 0 {
+			p = cat(p, u32(0x01010000+uint32(i)<<16))
+		}
+		if flags&0x800 != 0 {
+			v := uint32(512 * i)
+			if ver == 1 && i%2 == 1 {
+				v = uint32(0xfffffe00) // negative offset in version 1
+			}
+			p = cat(p, u32(v))
+		}
+	}
+	return fb("trun", ver, flags, p)
+}
+
+func tfhd(flags uint32) []byte {
+	p := u32(7)
+	if flags&0x1 != 0 {
+		p = cat(p, u64(0x0000000100000abc))
+	}
+	if flags&0x2 != 0 {
+		p = cat(p, u32(2))
+	}
+	if flags&0x8 != 0 {
+		p = cat(p, u32(1024))
+	}
+	if flags&0x10 != 0 {
+		p = cat(p, u32(0xabcdef))
+	}
+	if flags&0x20 != 0 {
+		p = cat(p, u32(0x01010000))
+	}
+	return fb("tfhd", 0, flags, p)
+}
+
+func tfra(ver byte, lenSizes byte, n int) []byte {
+	lt, lr, ls := (lenSizes>>4)&3, (lenSizes>>2)&3, lenSizes&3
+	p := cat(u32(3), u32(uint32(lenSizes&0x3f)), u32(uint32(n)))
+	put := func(v uint32, l byte) []byte { return u32(v)[3-l:] }
+	for i := 0; i < n; i++ {
+		if ver == 1 {
+			p = cat(p, u64(uint64(0x100000000+90000*i)), u64(uint64(0x200000000+5000*i)))
+		} else {
+			p = cat(p, u32(uint32(90000*i)), u32(uint32(1000+5000*i)))
+		}
+		p = cat(p, put(uint32(1+i), lt), put(1, lr), put(uint32(1+i%3), ls))
+	}
+	return fb("tfra", ver, 0, p)
+}
+
+func sidx(ver byte, nrefs int) []byte {
+	p := cat(u32(1), u32(90000))
+	if ver == 0 {
+		p = cat(p, u32(180000), u32(52))
+	} else {
+		p = cat(p, u64(0x100000000+180000), u64(0x100000034))
+	}
+	p = cat(p, u16(0), u16(uint16(nrefs)))
+	for i := 0; i < nrefs; i++ {
+		rt := uint32(i%2) << 31
+		p = cat(p, u32(rt|uint32(10000+i)), u32(uint32(180000+i)), u32(0x90000000|uint32(i)))
+	}
+	return fb("sidx", ver, 0, p)
+}
+
+func senc(flags uint32, ivLen int, n int) []byte {
+	p := u32(uint32(n))
+	for i := 0; i < n; i++ {
+		p = cat(p, seq(ivLen, byte(16*i)))
+		if flags&2 != 0 {
+			ns := 1 + i%2
+			p = cat(p, u16(uint16(ns)))
+			for k := 0; k < ns; k++ {
+				p = cat(p, u16(uint16(100+k)), u32(uint32(2000+i)))
+			}
+		}
+	}
+	return fb("senc", 0, flags, p)
+}
+
+func lou(typ string, ver byte, bases int, meas int) []byte {
+	var p []byte
+	if ver >= 1 {
+		p = u8(byte(bases) & 0x3f)
+	} else {
+		bases = 1
+	}
+	for i := 0; i < bases; i++ {
+		if ver >= 1 {
+			p = cat(p, u8(byte(3+i)&0x3f))
+		}
+		p = cat(p, u16(uint16(5+i)<<6|uint16(9+i)), u24(0x123<<12|0x456), u8(0x21), u8(byte(meas)))
+		for k := 0; k < meas; k++ {
+			p = cat(p, u8(byte(1+k), byte(0x40+k), 0x12))
+		}
+	}
+	return fb(typ, ver, 0, p)
+}
+
+func builtBoxes() []Seed {
+	var out []Seed
+	add := func(typ, shape string, b []byte) {
+		out = append(out, Seed{Name: fmt.Sprintf("built:%s[%s]", typ, shape), Kind: "built", Type: typ, Data: b})
+	}
+
+	// --- movie / track / media headers, both versions
+	add("mvhd", "v0", fb("mvhd", 0, 0, u32(0xd0000001), u32(0xd0000002), u32(90000), u32(900000), u32(0x00010000), u16(0x0100), zeros(10), unity, zeros(24), u32(3)))
+	add("mvhd", "v1", fb("mvhd", 1, 0, u64(0x1d0000001), u64(0x1d0000002), u32(90000), u64(0x100000000+900000), u32(0x00018000), u16(0x0080), zeros(10), unity, zeros(24), u32(0xfffffffe)))
+	for _, fl := range []uint32{0, 1, 3, 7, 0xf} {
+		add("tkhd", fmt.Sprintf("v0,f%x", fl), fb("tkhd", 0, fl, u32(0xd0000001), u32(0xd0000002), u32(2), u32(0), u32(900000), zeros(8), u16(1), u16(2), u16(0x0100), u16(0), unity, u32(1280<<16), u32(720<<16)))
+	}
+	add("tkhd", "v1", fb("tkhd", 1, 7, u64(0x1d0000001), u64(0x1d0000002), u32(0x80000001), u32(0), u64(0x100000000+900000), zeros(8), u16(0xffff), u16(0x7fff), u16(0), u16(0), unity, u32(1920<<16|0x8000), u32(1080<<16|1)))
+	add("mdhd", "v0", fb("mdhd", 0, 0, u32(0xd0000001), u32(0xd0000002), u32(48000), u32(480000), u16(0x55c4), u16(0)))
+	add("mdhd", "v1", fb("mdhd", 1, 0, u64(0x1d0000001), u64(0x1d0000002), u32(48000), u64(0x100000000+480000), u16(0x15c7), u16(0)))
+	add("mehd", "v0", fb("mehd", 0, 0, u32(900000)))
+	add("mehd", "v1", fb("mehd", 1, 0, u64(0x100000000+900000)))
+	add("elst", "v0", fb("elst", 0, 0, u32(2), u32(1000), u32(0xffffffff), u16(1), u16(0), u32(9000), u32(2048), u16(1), u16(0)))
+	add("elst", "v1", fb("elst", 1, 0, u32(2), u64(0x100000000+1000), u64(0xffffffffffffffff), u16(1), u16(0), u64(9000), u64(0x100000000+2048), u16(2), u16(0x8000)))
+	add("edts", "elst", bx("edts", fb("elst", 0, 0, u32(1), u32(1000), u32(0), u16(1), u16(0))))
+	add("hdlr", "vide", fb("hdlr", 0, 0, u32(0), []byte("vide"), zeros(12), str0("mp4ff video handler")))
+	add("hdlr", "noname", fb("hdlr", 0, 0, u32(0), []byte("soun"), zeros(12), u8(0)))
+	add("vmhd", "", fb("vmhd", 0, 1, u16(0x0040), u16(0x8000), u16(0x8001), u16(0xffff)))
+	add("smhd", "", fb("smhd", 0, 0, u16(0xff00), u16(0)))
+	add("nmhd", "", fb("nmhd", 0, 0))
+	add("sthd", "", fb("sthd", 0, 0))
+	add("elng", "", fb("elng", 0, 0, str0("sv-SE")))
+	add("kind", "", fb("kind", 0, 0, str0("urn:mpeg:dash:role:2011"), str0("forced-subtitle")))
+	add("kind", "empty-value", fb("kind", 0, 0, str0("urn:x"), str0("")))
+	add("dref", "url-self", fb("dref", 0, 0, u32(1), fb("url ", 0, 1)))
+	add("dref", "url-location", fb("dref", 0, 0, u32(2), fb("url ", 0, 0, str0("http://example.com/a.mp4")), fb("url ", 0, 1)))
+	add("dinf", "", bx("dinf", fb("dref", 0, 0, u32(1), fb("url ", 0, 1))))
+
+	// --- sample tables
+	add("stts", "", fb("stts", 0, 0, u32(3), u32(10), u32(1024), u32(1), u32(0xffffffff), u32(0x80000000), u32(1)))
+	add("stts", "empty", fb("stts", 0, 0, u32(0)))
+	add("ctts", "v0", fb("ctts", 0, 0, u32(2), u32(3), u32(2048), u32(1), u32(0x7fffffff)))
+	add("ctts", "v1", fb("ctts", 1, 0, u32(3), u32(3), u32(0xfffffc00), u32(1), u32(0x80000000), u32(2), u32(1024)))
+	add("cslg", "v0", fb("cslg", 0, 0, u32(0xfffffc00), u32(0xfffffc00), u32(2048), u32(0), u32(0x7fffffff)))
+	add("cslg", "v1", fb("cslg", 1, 0, u64(0xfffffffffffffc00), u64(0xfffffffffffffc00), u64(2048), u64(0x100000000), u64(0x7fffffffffffffff)))
+	add("stss", "", fb("stss", 0, 0, u32(3), u32(1), u32(25), u32(0xffffffff)))
+	add("stsc", "one-sdi", fb("stsc", 0, 0, u32(2), u32(1), u32(4), u32(1), u32(10), u32(2), u32(1)))
+	add("stsc", "two-sdi", fb("stsc", 0, 0, u32(3), u32(1), u32(4), u32(1), u32(5), u32(2), u32(2), u32(9), u32(1), u32(1)))
+	add("stsz", "uniform", fb("stsz", 0, 0, u32(417), u32(1000)))
+	add("stsz", "table", fb("stsz", 0, 0, u32(0), u32(4), u32(1), u32(0), u32(0xffffffff), u32(70000)))
+	add("stsz", "empty", fb("stsz", 0, 0, u32(0), u32(0)))
+	add("stco", "", fb("stco", 0, 0, u32(3), u32(48), u32(0x7fffffff), u32(0xffffffff)))
+	add("co64", "", fb("co64", 0, 0, u32(3), u64(48), u64(0x100000000), u64(0xffffffffffffffff)))
+	add("co64", "empty", fb("co64", 0, 0, u32(0)))
+	add("sdtp", "", fb("sdtp", 0, 0, u8(0x20, 0x10, 0x18, 0x64, 0xa9, 0xff, 0x00)))
+	for _, v := range []byte{0, 1} {
+		sz := func(x uint32) []byte {
+			if v == 1 {
+				return u32(x)
+			}
+			return u16(uint16(x))
+		}
+		add("subs", fmt.Sprintf("v%d", v), fb("subs", v, 0, u32(2), u32(1), u16(2), sz(100), u8(1, 0), u32(0), sz(0xfff0), u8(255, 1), u32(0xdeadbeef), u32(5), u16(0)))
+	}
+	add("sbgp", "v0", fb("sbgp", 0, 0, []byte("roll"), u32(2), u32(10), u32(1), u32(5), u32(0)))
+	add("sbgp", "v1", fb("sbgp", 1, 0, []byte("seig"), u32(0x12345678), u32(1), u32(25), u32(0x10001)))
+	add("sgpd", "v1-roll", fb("sgpd", 1, 0, []byte("roll"), u32(2), u32(2), u16(0xffff), u16(3)))
+	add("sgpd", "v1-rap", fb("sgpd", 1, 0, []byte("rap "), u32(1), u32(1), u8(0x83)))
+	seig := cat(u8(0), u8(0x19), u8(1), u8(8), kid1)
+	seigConst := cat(u8(0), u8(0x19), u8(1), u8(0), kid2, u8(8), seq(8, 0x50))
+	add("sgpd", "v1-seig", fb("sgpd", 1, 0, []byte("seig"), u32(20), u32(1), seig))
+	add("sgpd", "v1-seig-lengths", fb("sgpd", 1, 0, []byte("seig"), u32(0), u32(2), u32(20), seig, u32(29), seigConst))
+	add("sgpd", "v2-roll", fb("sgpd", 2, 0, []byte("roll"), u32(2), u32(1), u32(1), u16(0xfffe)))
+	add("sgpd", "v1-unknown", fb("sgpd", 1, 0, []byte("tele"), u32(1), u32(2), u8(0x80), u8(0x00)))
+	add("sgpd", "v1-alst", fb("sgpd", 1, 0, []byte("alst"), u32(0), u32(1), u32(12), u16(2), u16(1), u32(5), u32(9)))
+	for _, fl := range []uint32{0, 1} {
+		aux := []byte{}
+		if fl == 1 {
+			aux = cat([]byte("cenc"), u32(0))
+		}
+		add("saiz", fmt.Sprintf("f%d,default", fl), fb("saiz", 0, fl, aux, u8(16), u32(25)))
+		add("saiz", fmt.Sprintf("f%d,table", fl), fb("saiz", 0, fl, aux, u8(0), u32(3), u8(8, 24, 255)))
+		add("saio", fmt.Sprintf("v0,f%d", fl), fb("saio", 0, fl, aux, u32(2), u32(1234), u32(0xffffffff)))
+		add("saio", fmt.Sprintf("v1,f%d", fl), fb("saio", 1, fl, aux, u32(1), u64(0x100000000+1234)))
+	}
+
+	// --- sample entries and codec configuration
+	add("avcC", "baseline", avcC(66, spsBase, nil))
+	add("avcC", "high-ext", avcC(100, spsHigh, u8(0xfd, 0xf8, 0xf8, 0)))
+	add("avcC", "high-noext", avcC(100, spsHigh, nil))
+	add("avcC", "high422-ext", avcC(122, spsHigh, u8(0xfe, 0xfa, 0xfa, 0)))
+	vps := []byte{0x40, 0x01, 0x0c, 0x01, 0xff, 0xff, 0x01, 0x60, 0x00, 0x00, 0x03, 0x00, 0x90, 0x00, 0x00, 0x03, 0x00, 0x00, 0x03, 0x00, 0x5d, 0x95, 0x98, 0x09}
+	sps5 := []byte{0x42, 0x01, 0x01, 0x01, 0x60, 0x00, 0x00, 0x03, 0x00, 0x90, 0x00, 0x00, 0x03, 0x00, 0x00, 0x03, 0x00, 0x5d, 0xa0, 0x02, 0x80, 0x80, 0x2d, 0x16, 0x59, 0x59, 0xa4, 0x93, 0x2b, 0xc0, 0x5a, 0x02}
+	pps5 := []byte{0x44, 0x01, 0xc1, 0x72, 0xb4, 0x62, 0x40}
+	add("hvcC", "3arrays", hvcC(hvcArray(true, 32, vps), hvcArray(true, 33, sps5), hvcArray(false, 34, pps5, pps5)))
+	add("hvcC", "noarrays", hvcC())
+	av1cfg := cat(u8(0x81, 0x04, 0x0c, 0x00), []byte{0x0a, 0x0b, 0x00, 0x00, 0x00, 0x24, 0xcf, 0x7f, 0x0d, 0xbf, 0xff, 0x30, 0x08})
+	add("av1C", "obus", bx("av1C", av1cfg))
+	add("av1C", "delay", bx("av1C", u8(0x81, 0x25, 0xce, 0x15)))
+	add("vpcC", "", fb("vpcC", 1, 0, u8(2, 31, 0xa3, 9, 16, 9), u16(0)))
+	add("vpcC", "init-data", fb("vpcC", 1, 0, u8(0, 10, 0x82, 1, 1, 1), u16(3), u8(1, 2, 3)))
+	add("SmDm", "", fb("SmDm", 0, 0, u16(34000), u16(16000), u16(13250), u16(34500), u16(7500), u16(3000), u16(15635), u16(16450), u32(10000000), u32(50)))
+	add("CoLL", "", fb("CoLL", 0, 0, u16(1000), u16(400)))
+	add("clap", "", bx("clap", u32(1280), u32(1), u32(720), u32(1), u32(0xfffffff6), u32(2), u32(0), u32(1)))
+	add("pasp", "", bx("pasp", u32(4), u32(3)))
+	add("btrt", "", bx("btrt", u32(65536), u32(5000000), u32(2500000)))
+	add("colr", "nclx", bx("colr", []byte("nclx"), u16(9), u16(16), u16(9), u8(0x80)))
+	add("colr", "rICC", bx("colr", []byte("rICC"), seq(24, 1)))
+	add("colr", "prof", bx("colr", []byte("prof"), seq(8, 0xf0)))
+	add("colr", "nclc", bx("colr", []byte("nclc"), u16(1), u16(1), u16(1)))
+	add("avc1", "avcC+btrt+pasp+colr", visualEntry("avc1", 1280, 720, "mp4ff video packager", avcC(100, spsHigh, u8(0xfd, 0xf8, 0xf8, 0)), bx("btrt", u32(0), u32(5000000), u32(2500000)), bx("pasp", u32(1), u32(1)), bx("colr", []byte("nclx"), u16(1), u16(1), u16(1), u8(0))))
+	add("avc3", "clap", visualEntry("avc3", 640, 360, "", avcC(66, spsBase, nil), bx("clap", u32(640), u32(1), u32(360), u32(1), u32(0), u32(1), u32(0), u32(1))))
+	add("hvc1", "", visualEntry("hvc1", 1920, 1080, "hevc", hvcC(hvcArray(true, 32, vps), hvcArray(true, 33, sps5), hvcArray(true, 34, pps5))))
+	add("hev1", "", visualEntry("hev1", 1920, 1080, "0123456789012345678901234567890", hvcC()))
+	add("av01", "", visualEntry("av01", 3840, 2160, "av1", bx("av1C", av1cfg), fb("SmDm", 0, 0, zeros(16), u32(1000), u32(1)), fb("CoLL", 0, 0, u16(1000), u16(400))))
+	add("vp08", "", visualEntry("vp08", 320, 240, "vp8", fb("vpcC", 1, 0, u8(0, 10, 0x80, 2, 2, 2), u16(0))))
+	add("vp09", "", visualEntry("vp09", 1280, 720, "vp9", fb("vpcC", 1, 0, u8(2, 31, 0xa3, 9, 16, 9), u16(0)), fb("SmDm", 0, 0, seq(16, 1), u32(10000000), u32(50))))
+	asc := []byte{0x11, 0x90}
+	add("esds", "size1", esds(1, asc))
+	add("esds", "size4", esds(4, []byte{0x2b, 0x11, 0x88, 0x00}))
+	add("mp4a", "esds", audioEntry("mp4a", 2, 16, 48000, esds(4, asc), bx("btrt", u32(0), u32(128000), u32(96000))))
+	dac3 := bx("dac3", u8(0x10, 0x3d, 0x60))
+	dec3a := bx("dec3", u8(0x06, 0x00, 0x20, 0x0f, 0x00))
+	dec3b := bx("dec3", u8(0x0c, 0x00, 0x20, 0x0f, 0x02, 0x01))
+	add("dac3", "", dac3)
+	add("dec3", "nodep", dec3a)
+	add("dec3", "dep", dec3b)
+	add("dec3", "2sub", bx("dec3", u8(0x06, 0x01, 0x20, 0x0f, 0x00, 0x20, 0x05, 0x00)))
+	add("ac-3", "", audioEntry("ac-3", 6, 16, 48000, dac3))
+	add("ec-3", "", audioEntry("ec-3", 6, 16, 48000, dec3a, bx("btrt", u32(0), u32(640000), u32(448000))))
+	add("enca", "sinf", audioEntry("enca", 2, 16, 44100, esds(1, asc), bx("sinf", bx("frma", []byte("mp4a")), fb("schm", 0, 0, []byte("cenc"), u32(0x00010000)), bx("schi", fb("tenc", 0, 0, u8(0, 0, 1, 8), kid1)))))
+	add("encv", "sinf-cbcs", visualEntry("encv", 1280, 720, "enc", avcC(66, spsBase, nil), bx("sinf", bx("frma", []byte("avc1")), fb("schm", 0, 0, []byte("cbcs"), u32(0x00010000)), bx("schi", fb("tenc", 1, 0, u8(0, 0x19, 1, 0), kid2, u8(16), seq(16, 0x30))))))
+	add("tenc", "v0,iv8", fb("tenc", 0, 0, u8(0, 0, 1, 8), kid1))
+	add("tenc", "v0,iv16", fb("tenc", 0, 0, u8(0, 0, 1, 16), kid1))
+	add("tenc", "v1,pattern,constiv", fb("tenc", 1, 0, u8(0, 0x19, 1, 0), kid2, u8(16), seq(16, 0x30)))
+	add("tenc", "v1,constiv8", fb("tenc", 1, 0, u8(0, 0x00, 1, 0), kid2, u8(8), seq(8, 0x30)))
+	add("tenc", "v0,unprotected", fb("tenc", 0, 0, u8(0, 0, 0, 0), zeros(16)))
+	add("schm", "nouri", fb("schm", 0, 0, []byte("cenc"), u32(0x00010000)))
+	add("schm", "uri", fb("schm", 0, 1, []byte("piff"), u32(0x00010001), str0("http://example.com/scheme")))
+	add("frma", "", bx("frma", []byte("hvc1")))
+	add("stpp", "3strings+btrt", bx("stpp", zeros(6), u16(1), str0("http://www.w3.org/ns/ttml"), str0("http://example.com/schema.xsd"), str0("image/png application/font"), bx("btrt", u32(0), u32(1000), u32(500))))
+	add("stpp", "empty-optional", bx("stpp", zeros(6), u16(1), str0("http://www.w3.org/ns/ttml"), str0(""), str0("")))
+	add("stpp", "namespace-only", bx("stpp", zeros(6), u16(1), str0("http://www.w3.org/ns/ttml"), str0("")))
+	add("wvtt", "vttC+vlab+btrt", bx("wvtt", zeros(6), u16(1), bx("vttC", []byte("WEBVTT")), bx("vlab", []byte("source label")), bx("btrt", u32(0), u32(1000), u32(500))))
+	add("evte", "btrt+silb", bx("evte", zeros(6), u16(1), bx("btrt", u32(0), u32(1000), u32(500)), fb("silb", 0, 0, u32(2), str0("urn:mpeg:dash:event:2012"), str0("1"), u8(1), str0("urn:scte:scte35:2013:bin"), str0(""), u8(0), u8(1))))
+	add("silb", "noschemes", fb("silb", 0, 0, u32(0), u8(0)))
+	add("silb", "1scheme", fb("silb", 0, 0, u32(1), str0("urn:x"), str0("v"), u8(0), u8(1)))
+	add("stsd", "avc1+mp4a", fb("stsd", 0, 0, u32(2), visualEntry("avc1", 320, 180, "x", avcC(66, spsBase, nil)), audioEntry("mp4a", 1, 16, 22050, esds(1, asc))))
+	add("stsd", "empty", fb("stsd", 0, 0, u32(0)))
+	add("mime", "terminated", fb("mime", 0, 0, str0("application/mp4; codecs=\"stpp\"")))
+	add("mime", "unterminated", fb("mime", 0, 0, []byte("text/plain")))
+
+	// --- webvtt sample boxes
+	add("vttc", "all", bx("vttc", bx("vsid", u32(0x01020304)), bx("iden", []byte("cue-1")), bx("ctim", []byte("00:00:01.000")), bx("sttg", []byte("line:10% align:start")), bx("payl", []byte("Hello <b>world</b>"))))
+	add("vttc", "payl", bx("vttc", bx("payl", []byte("x"))))
+	add("vtte", "", bx("vtte"))
+	add("vtta", "", bx("vtta", []byte("NOTE a comment")))
+	add("vsid", "", bx("vsid", u32(0xffffffff)))
+	add("iden", "", bx("iden", []byte("id")))
+	add("ctim", "", bx("ctim", []byte("00:00:00.000")))
+	add("sttg", "", bx("sttg", []byte("position:50%")))
+	add("payl", "", bx("payl", []byte("caf\xc3\xa9 \xe2\x99\xa5")))
+	add("payl", "empty", bx("payl"))
+	add("vlab", "", bx("vlab", []byte("label")))
+	add("vttC", "", bx("vttC", []byte("WEBVTT\n")))
+	add("cdat", "", bx("cdat", u8(0xfc, 0x94, 0x2c, 0xfc, 0x94, 0x2c)))
+
+	// --- movie extends / fragments
+	add("trex", "", fb("trex", 0, 0, u32(1), u32(1), u32(1024), u32(0), u32(0x01010000)))
+	add("trep", "", fb("trep", 0, 0, u32(2)))
+	add("trep", "child", fb("trep", 0, 0, u32(2), fb("kind", 0, 0, str0("urn:x"), str0("y"))))
+	add("leva", "all-types", fb("leva", 0, 0, u8(5), u32(1), u8(0x00), []byte("roll"), u32(1), u8(0x81), []byte("tele"), u32(7), u32(2), u8(0x02), u32(2), u8(0x83), u32(3), u8(0x04), u32(9)))
+	add("leva", "none", fb("leva", 0, 0, u8(0)))
+	add("mvex", "mehd+trex+leva+trep", bx("mvex", fb("mehd", 1, 0, u64(0x100000000)), fb("trex", 0, 0, u32(1), u32(1), u32(0), u32(0), u32(0)), fb("trex", 0, 0, u32(2), u32(1), u32(1024), u32(100), u32(0x02000000)), fb("leva", 0, 0, u8(1), u32(1), u8(0x02)), fb("trep", 0, 0, u32(1))))
+	add("mfhd", "", fb("mfhd", 0, 0, u32(0xffffffff)))
+	add("tfdt", "v0", fb("tfdt", 0, 0, u32(0xfffffffe)))
+	add("tfdt", "v1", fb("tfdt", 1, 0, u64(0x123456789abcdef0)))
+	for fl := uint32(0); fl < 128; fl++ {
+		f := fl&1 | (fl>>1&1)<<1 | (fl>>2&1)<<3 | (fl>>3&1)<<4 | (fl>>4&1)<<5 | (fl>>5&1)<<16 | (fl>>6&1)<<17
+		add("tfhd", fmt.Sprintf("f%06x", f), tfhd(f))
+	}
+	for fl := uint32(0); fl < 64; fl++ {
+		f := fl&1 | (fl>>1&1)<<2 | (fl>>2&1)<<8 | (fl>>3&1)<<9 | (fl>>4&1)<<10 | (fl>>5&1)<<11
+		n := []int{3, 1, 0}[fl%3]
+		add("trun", fmt.Sprintf("v%d,f%06x,n%d", fl>>5&1, f, n), trun(byte(fl>>5&1), f, n))
+	}
+	add("trun", "v1,all,n4", trun(1, 0xf01, 4))
+	add("trun", "v0,all+first,n2", trun(0, 0xf05, 2))
+	for _, v := range []byte{0, 1} {
+		for _, n := range []int{0, 1, 3} {
+			add("sidx", fmt.Sprintf("v%d,n%d", v, n), sidx(v, n))
+		}
+		for _, ls := range []byte{0x00, 0x15, 0x2a, 0x3f, 0x1b} {
+			add("tfra", fmt.Sprintf("v%d,ls%02x", v, ls), tfra(v, ls, 2))
+		}
+		add("tfra", fmt.Sprintf("v%d,empty", v), tfra(v, 0, 0))
+	}
+	add("mfro", "", fb("mfro", 0, 0, u32(67)))
+	add("mfra", "tfra+mfro", bx("mfra", tfra(1, 0x3f, 1), tfra(0, 0, 2), fb("mfro", 0, 0, u32(uint32(8+len(tfra(1, 0x3f, 1))+len(tfra(0, 0, 2))+16)))))
+	add("ssix", "", fb("ssix", 0, 0, u32(2), u32(2), u8(1), u24(1000), u8(2), u24(0xffffff), u32(1), u8(0), u24(0)))
+	add("ssix", "empty", fb("ssix", 0, 0, u32(0)))
+	add("senc", "iv8", senc(0, 8, 3))
+	add("senc", "iv16", senc(0, 16, 2))
+	add("senc", "iv8+sub", senc(2, 8, 3))
+	add("senc", "iv0+sub", senc(2, 0, 2))
+	add("senc", "iv16+sub", senc(2, 16, 2))
+	add("senc", "empty", senc(0, 0, 0))
+	add("senc", "count-only", senc(0, 0, 5))
+	for _, v := range []byte{0, 1} {
+		kids := []byte{}
+		if v == 1 {
+			kids = cat(u32(2), kid1, kid2)
+		}
+		add("pssh", fmt.Sprintf("v%d,data", v), fb("pssh", v, 0, sysID, kids, u32(5), seq(5, 0x70)))
+		add("pssh", fmt.Sprintf("v%d,nodata", v), fb("pssh", v, 0, sysID, kids, u32(0)))
+	}
+	add("pssh", "v1,nokids", fb("pssh", 1, 0, sysID, u32(0), u32(1), u8(0xaa)))
+	add("emsg", "v0", fb("emsg", 0, 0, str0("urn:mpeg:dash:event:2012"), str0("1"), u32(90000), u32(45000), u32(0xffffffff), u32(77), []byte("payload")))
+	add("emsg", "v1", fb("emsg", 1, 0, u32(90000), u64(0x100000000+45000), u32(90000), u32(78), str0("urn:scte:scte35:2013:bin"), str0(""), seq(12, 0xfc)))
+	add("emsg", "v0,nodata", fb("emsg", 0, 0, str0("s"), str0(""), u32(1), u32(0), u32(0), u32(0)))
+	add("emib", "", fb("emib", 0, 0, u32(0), u64(0xffffffffffffff00), u32(9000), u32(5), str0("urn:x"), str0("v"), []byte("msg")))
+	add("emeb", "", bx("emeb"))
+	for _, v := range []byte{0, 1} {
+		for _, fl := range []uint32{0, 1, 2, 4, 8, 16, 0x18} {
+			mt := u32(0xfffffff0)
+			if v == 1 {
+				mt = u64(0x1fffffff0)
+			}
+			add("prft", fmt.Sprintf("v%d,f%02x", v, fl), fb("prft", v, fl, u32(1), u64(0xe5d2a4f080000000), mt))
+		}
+	}
+	trafEnc := bx("traf", tfhd(0x20038), fb("tfdt", 1, 0, u64(0x100000000)), trun(1, 0xf01, 3),
+		fb("saiz", 0, 0, u8(0), u32(3), u8(16, 22, 16)), fb("saio", 0, 0, u32(1), u32(300)), senc(2, 8, 3),
+		fb("sbgp", 0, 0, []byte("seig"), u32(1), u32(3), u32(0x10001)), fb("sgpd", 1, 0, []byte("seig"), u32(20), u32(1), seig),
+		fb("subs", 0, 0, u32(1), u32(1), u16(1), u16(100), u8(0, 0), u32(0)))
+	add("traf", "encrypted-all-boxes", trafEnc)
+	add("moof", "2traf", bx("moof", fb("mfhd", 0, 0, u32(5)), trafEnc, bx("traf", tfhd(0x20000), fb("tfdt", 0, 0, u32(1000)), trun(0, 0x201, 2), trun(0, 0x305, 1))))
+
+	// --- user data / metadata
+	add("\xa9ART", "", bx("\xa9ART", dataBox("artist")))
+	add("\xa9nam", "", bx("\xa9nam", dataBox("title \xc3\xa5\xc3\xa4\xc3\xb6")))
+	add("\xa9cpy", "", bx("\xa9cpy", dataBox("(c) 2026")))
+	add("\xa9too", "", bx("\xa9too", dataBox("Lavf60.3.100")))
+	add("data", "", dataBox("plain"))
+	add("ilst", "4items", bx("ilst", bx("\xa9nam", dataBox("n")), bx("\xa9ART", dataBox("a")), bx("\xa9cpy", dataBox("c")), bx("\xa9too", dataBox("t"))))
+	add("meta", "full", fb("meta", 0, 0, fb("hdlr", 0, 0, u32(0), []byte("mdir"), []byte("appl"), zeros(8), u8(0)), bx("ilst", bx("\xa9too", dataBox("t")))))
+	add("meta", "quicktime", bx("meta", fb("hdlr", 0, 0, u32(0), []byte("mdta"), zeros(12), u8(0)), bx("ilst")))
+	add("desc", "", bx("desc", bx("free", u8(1, 2, 3)), dataBox("d")))
+	add("udta", "meta+ludt+kind", bx("udta", fb("meta", 0, 0, fb("hdlr", 0, 0, u32(0), []byte("mdir"), zeros(12), u8(0)), bx("ilst", bx("\xa9nam", dataBox("n")))), bx("ludt", lou("tlou", 0, 1, 2), lou("alou", 0, 1, 1)), fb("kind", 0, 0, str0("urn:x"), str0("y"))))
+	add("tlou", "v0", lou("tlou", 0, 1, 2))
+	add("tlou", "v0,nomeas", lou("tlou", 0, 1, 0))
+	add("tlou", "v1,2bases", lou("tlou", 1, 2, 1))
+	add("alou", "v0", lou("alou", 0, 1, 3))
+	add("alou", "v1", lou("alou", 1, 1, 2))
+	add("ludt", "tlou+alou", bx("ludt", lou("tlou", 1, 1, 1), lou("alou", 0, 1, 1)))
+	for _, t := range []string{"hint", "cdsc", "font", "hind", "vdep", "vplx", "subt", "dpnd", "ipir", "mpod", "sync"} {
+		add(t, "", bx(t, u32(1), u32(0xffffffff)))
+	}
+	add("hint", "empty", bx("hint"))
+	add("tref", "many", bx("tref", bx("hint", u32(1)), bx("cdsc", u32(2), u32(3)), bx("font", u32(4)), bx("hind", u32(5)), bx("vdep", u32(6)), bx("vplx", u32(7)), bx("subt", u32(8)), bx("dpnd", u32(9)), bx("ipir", u32(10)), bx("mpod", u32(11)), bx("sync", u32(12))))
+	add("uuid", "tfxd-v0", bx("uuid", []byte{0x6d, 0x1d, 0x9b, 0x05, 0x42, 0xd5, 0x44, 0xe6, 0x80, 0xe2, 0x14, 0x1d, 0xaf, 0xf7, 0x57, 0xb2}, u32(0), u32(1000), u32(2000)))
+	add("uuid", "tfxd-v1", bx("uuid", []byte{0x6d, 0x1d, 0x9b, 0x05, 0x42, 0xd5, 0x44, 0xe6, 0x80, 0xe2, 0x14, 0x1d, 0xaf, 0xf7, 0x57, 0xb2}, u32(0x01000000), u64(0x100000000+1000), u64(20000000)))
+	add("uuid", "tfrf-v0", bx("uuid", []byte{0xd4, 0x80, 0x7e, 0xf2, 0xca, 0x39, 0x46, 0x95, 0x8e, 0x54, 0x26, 0xcb, 0x9e, 0x46, 0xa7, 0x9f}, u32(0), u8(2), u32(1000), u32(2000), u32(3000), u32(2000)))
+	add("uuid", "tfrf-v1", bx("uuid", []byte{0xd4, 0x80, 0x7e, 0xf2, 0xca, 0x39, 0x46, 0x95, 0x8e, 0x54, 0x26, 0xcb, 0x9e, 0x46, 0xa7, 0x9f}, u32(0x01000000), u8(1), u64(0x100000000+1000), u64(20000000)))
+	add("uuid", "unknown", bx("uuid", seq(16, 0x41), []byte("opaque")))
+	add("uuid", "unknown-empty", bx("uuid", seq(16, 0x41)))
+	add("free", "", bx("free", seq(5, 1)))
+	add("free", "empty", bx("free"))
+	add("skip", "", bx("skip", zeros(9)))
+	add("ftyp", "", bx("ftyp", []byte("iso6"), u32(1), []byte("iso6cmfcdash")))
+	add("ftyp", "nocompat", bx("ftyp", []byte("isom"), u32(0x200)))
+	add("styp", "", bx("styp", []byte("msdh"), u32(0), []byte("msdhmsix")))
+	add("mdat", "compact", bx("mdat", seq(32, 0)))
+	add("mdat", "empty", bx("mdat"))
+	add("mdat", "largesize", cat(u32(1), []byte("mdat"), u64(16+10), seq(10, 0x80)))
+	return out
+}
